@@ -9,6 +9,7 @@ import (
 	"fmt"
 	"math/rand"
 	"sync"
+	"sync/atomic"
 	"time"
 
 	"github.com/gogo/protobuf/proto"
@@ -484,9 +485,11 @@ func (pr *peerReactor) ReceiveEnvelope(e p2p.Envelope) {
 	switch msg := e.Message.(type) {
 	case *bcproto.StatusRequest:
 		pr.status(e.Src)
+		pr.h.tick(pr.idx)
 	case *bcproto.BlockRequest:
 		h := msg.Height
 		pr.h.log.add("req_received", pr.spec.Name, h, "")
+		atomic.AddInt32(&pr.h.reqs[pr.idx], 1)
 		blk, noBlock, silent := pr.h.w.build(pr.spec, h)
 		switch {
 		case silent:
